@@ -30,7 +30,7 @@ def run_stop(path, mode, k, delay=0, flavour="rel", timeout=20):
 
 def b_stop(job):
     rng = random.Random(job["seed"])
-    g = G.Gen(rng, job["logic"])
+    g = G.Gen(rng, job["logic"], nnum=job.get("nnum", 3))
     # one non-incremental instance, hard enough to have several poll points
     n = job.get("n_atoms", 9)
     atoms = g.atom_pool(n)
@@ -47,10 +47,18 @@ def b_stop(job):
             t = tb.app("+", [tb.app("*", [c(coef), v]), tb.app("*", [c(coef * rng.choice([1, -1])), w])])
             return [tb.app("<=", [c(coef * k + lo), t]), tb.app("<=", [t, c(coef * k + hi)])]
         cases = []
+        def both(lo, t):      # lo <= t <= lo as two inequalities (an equality would be normalised away by a gcd test)
+            return [tb.app("<=", [lo, t]), tb.app("<=", [t, lo])]
         for _ in range(rng.randint(2, 3)):
             a = rng.choice([2, 3, 4])
-            v, w = rng.sample(xs, 2)
-            cases.append(tb.app("and", window(a, v, w, rng.randint(0, 3), 1, a - 1) + ([rng.choice(atoms)] if rng.random() < 0.3 else [])))
+            if len(xs) >= 3 and rng.random() < 0.7:
+                # v is a multiple of a and at the same time a multiple of a plus r: only branching or cuts refute it
+                v, q1, q2 = rng.sample(xs, 3)
+                r_ = rng.randint(1, a - 1)
+                cases.append(tb.app("and", both(tb.app("*", [c(a), q1]), v) + both(tb.app("+", [tb.app("*", [c(a), q2]), c(r_)]), v)))
+            else:
+                v, w = rng.sample(xs, 2)
+                cases.append(tb.app("and", window(a, v, w, rng.randint(0, 3), 1, a - 1) + ([rng.choice(atoms)] if rng.random() < 0.3 else [])))
         body.append({"c": "assert", "t": tb.app("or", cases) if len(cases) > 1 else cases[0], "nm": "", "inner": []})
         n = max(3, n // 3)
     for _ in range(int(job.get("ratio", 4.0) * n)):
